@@ -38,7 +38,7 @@ RTOL_Q = 1e-9                     # abstraction tolerance float -> model integer
 RTOL_REL = 1e-12                  # relations between logged floats (natural runs)
 
 MECH = dict(MSliceExtra=False, MClipInit=False, MNeverRaise=False, MMulFirst=False, MTestPrev=False,
-            MReturnUnconverged=False, MWarmupRule=False)
+            MReturnUnconverged=False, MWarmupRule=False, MEntryPerIteration=False)
 
 INV_C12 = ["TypeOK", "DtPositive", "DtAtMostMax", "NonAdaptiveDtIsInit", "RetriesBounded", "ReturnedDtIsAnswered"]
 PROP_C12 = ["FirstAttemptUsesTentative", "DtKeptAcrossScreeningIterations", "RetryMultiplies",
@@ -490,6 +490,8 @@ def natural_run(tdgl, p, tmp=None):
                       "attempts": sum(1 for e in ev if e["ev"] == "attempt"),
                       "refusals": sum(1 for e in ev if e["ev"] == "attempt" and e["refused"]),
                       "rule_steps": sum(1 for e in ev if e["ev"] == "return" and "rule" in e["rels"] and "unchanged" not in e["rels"]),
+                      "unclipped_rule_steps": sum(1 for e in ev if e["ev"] == "return" and "rule" in e["rels"]
+                                                  and "unchanged" not in e["rels"] and e["tent"] < dt_max * (1 - 1e-9)),
                       "last_tent": next((e["tent"] for e in reversed(ev) if e["ev"] == "return"), None),
                       "max_frame_mismatch_over_tol": max([f["mism_over_tol"] for f in frames], default=0.0)}}
 
